@@ -115,3 +115,12 @@ Theorem testnet_never_queries_mainnet : forall c usable cached from_urls count,
   (c_local c = true -> cfg_sources c usable cached from_urls count = []) /\
   (c_urls c = [] -> ~ In SrcUrls (cfg_sources c usable cached from_urls count)).
 Proof. exact sources_lemma. Qed.
+
+(* the limits the node's log appender is built with: the number of archives kept (total - uncompressed) is exactly
+   the written --max-archived-log-files, 0 included; the plain files are the written --max-log-files (default 10);
+   without an archive limit the total is max(uncompressed, 1000) *)
+Theorem log_limits_as_written : forall c,
+  let '(u, t) := log_limits c in
+  (forall a, c_maxarch c = Some a -> t - u = a) /\ (forall n, c_maxlog c = Some n -> u = n) /\
+  (c_maxlog c = None -> u = 10%N) /\ (c_maxarch c = None -> t = N.max u 1000) /\ (u <= t)%N.
+Proof. exact log_limits_lemma. Qed.
